@@ -79,6 +79,8 @@ class ProgGen:
     # -- statements --------------------------------------------------------------------------------------------
     def block(self, ctx, depth, n=None):
         out = []
+        if n is None and ctx['level'] > 0 and self.r.random() < 0.07:
+            return out                      # an empty body (if / elif / else / loop / function)
         count = n if n is not None else self.r.randint(1, 3)
         for _ in range(count):
             out.extend(self.stmt(ctx, depth))
@@ -187,7 +189,8 @@ class ProgGen:
         self.stats['func'] += 1
         name = 'fn%d' % len(self.funcs)
         recursive = r.random() < 0.25
-        params = ['a', 'b', 'c'][:r.randint(1 if recursive else 0, 3)]
+        # parameter names sometimes collide with global names (x, y, g1): a null parameter must still shadow the global
+        params = (['a', 'b', 'c'] if r.random() < 0.6 else r.sample(['a', 'x', 'y', 'g1', 'b'], 3))[:r.randint(1 if recursive else 0, 3)]
         last = bool(params) and not recursive and r.random() < 0.3
         types = {p: '?' for p in params}
         if last:
@@ -205,6 +208,10 @@ class ProgGen:
             body.append(('if', [(('bin', '>', ('var', params[0]), num(0)),
                                  [self.mark(), ('assign', 'rr', call(name, *rec_args)), log_stmt(('var', 'rr'))])], None))
             self.funcs.pop()
+        for pname in params:
+            if r.random() < 0.4:
+                # a parameter read as a direct operand (it may be null - a missing argument - while a global of the same name is not)
+                body.append(log_stmt(('bin', '+', sq(pname + '?'), ('group', ('bin', r.choice(['==', '!=', '<']), ('var', pname), r.choice([('var', 'null'), num(1)]))))))
         body += self.block(fctx, min(depth - 1, 2), r.randint(1, 4))
         self.funcs.append((name, params, last, recursive))
         return ('func', name, params, last, body)
